@@ -53,7 +53,12 @@ pub struct RunResult {
     pub trace: Vec<String>,
 }
 
-pub const ALLOC_BASE_BOUND: usize = 256 << 20;
+/// Allocation bound of one operation: ALLOC_BASE_BOUND + ALLOC_FACTOR x bytes of input visible to
+/// it. Deflate expands by at most 1032:1, block-compressed textures by 8:1, everything else is
+/// linear, so no operation that holds C17/C18 needs more; a corrupted 32-bit size field asks for
+/// far more on inputs of the sizes generated here.
+pub const ALLOC_BASE_BOUND: usize = 8 << 20;
+pub const ALLOC_FACTOR: usize = 1100;
 
 pub struct Harness {
     pub fs: Rc<SimFs>,
@@ -189,7 +194,7 @@ impl Harness {
         }
         let budget = 1_000_000 + 16 * input_bytes;
         self.fs.begin_op(op_id as usize, self.sub_seed(op_id), budget);
-        let bound = ALLOC_BASE_BOUND.saturating_add(64usize.saturating_mul(input_bytes as usize));
+        let bound = ALLOC_BASE_BOUND.saturating_add(ALLOC_FACTOR.saturating_mul(input_bytes as usize));
         alloc::op_begin(bound);
         let r = monitor::guarded(f);
         let rep = alloc::op_end();
@@ -221,7 +226,7 @@ impl Harness {
             }
             Err(Caught::Budget) => {
                 self.violate(
-                    &format!("budget|{}", entry),
+                    "budget",
                     format!("{} exceeded its step budget of {} file-system calls", entry, budget),
                 );
                 Outcome::Crashed
